@@ -106,6 +106,9 @@ func isCanonical(f *sfnt.Font) string {
 		if customNameCount(o.Names) > maxCustomNames {
 			return "more non-standard glyph names than a format-2 post table can index"
 		}
+		if hasLongName(o.Names) {
+			return "a glyph name longer than a format-2 post table can hold"
+		}
 	case *cff.Outlines:
 		if f.FontMatrix != [6]float64{0.001, 0, 0, 0.001, 0, 0} || f.UnitsPerEm != 1000 {
 			return "CFF font matrix other than 0.001"
